@@ -115,12 +115,16 @@ func (c *Content) WithFileInfoDefaults(umask fs.FileMode, mtime time.Time) *Cont
 		Destination: c.Destination,
 		Type:        c.Type,
 		Packager:    c.Packager,
-		FileInfo:    c.FileInfo,
 	}
 	if cc.Type == "" {
 		cc.Type = TypeFile
 	}
-	if cc.FileInfo == nil {
+	if c.FileInfo != nil {
+		// copy the file info: the defaults set below (and by the packagers
+		// later on) must not be written into the caller's content
+		fileInfo := *c.FileInfo
+		cc.FileInfo = &fileInfo
+	} else {
 		cc.FileInfo = &ContentFileInfo{}
 	}
 	if cc.FileInfo.Owner == "" {
